@@ -70,6 +70,11 @@ def digest_run(cfg, workload=()):
         feed(rec['final']['best']['pos']); feed(float(rec['final']['best']['fit']))
         if rec.get('final_gp'):
             feed(rec['final_gp']['vals']); feed(rec['final_gp']['best_val'])
+        hooks = [e for e in rec['events'] if e['t'] == 'hook']
+        if hooks:
+            for k in sorted(hooks[0]['hp']):
+                h.update(k.encode()); feed(hooks[0]['hp'][k])
+            out['hp_first_hook'] = hooks[0]['hp']
         out['n_evals'] = sum(1 for e in rec['events'] if e['t'] == 'eval')
         out['first_positions'] = [a['real'].tolist() for a in rec['init']['pop'][:1]] if rec.get('init') else None
     out['digest'] = h.hexdigest()
